@@ -39,15 +39,31 @@ pub fn body(inst: &str) {
         return;
     }
     note(format!("num_cpus::get() = {} worker threads", workers));
+    const SCHED: &str = "two executions on the same data return different results (the reduction depends on thread scheduling)";
+    if is_concrete() {
+        // concrete replay of the scheduling clause: data whose partial sums are NOT exactly summable, many repetitions,
+        // bit-identical results required (only meaningful over doubles)
+        if is_float() {
+            let n = 16 * workers.max(2) + 3;
+            let a: Vec<Sym> = (0..n).map(|i| Sym::lit(0.1 * (i as f64) + 0.37)).collect();
+            let b: Vec<Sym> = (0..n).map(|i| Sym::lit(1.0 / (1.0 + i as f64))).collect();
+            let (va, vb) = (Vector::create(a), Vector::create(b));
+            let first = va.dot_f64(&vb).to_f64().map(|x| x.to_bits());
+            let mut same = true;
+            for _ in 0..200 { if va.dot_f64(&vb).to_f64().map(|x| x.to_bits()) != first { same = false; break; } }
+            check_that(same, || SCHED.into());
+        }
+    }
     for len in 0..=lmax {
         count_case();
         let a = var_vec("a", len);
         let b = var_vec("b", len);
         let (va, vb) = (Vector::create(a.clone()), Vector::create(b.clone()));
         let tag = format!("len {} / {} workers", len, workers);
-        match catch(|| (va.dot_f64(&vb), va.dot_f64(&vb), va.dot(&vb))) {
-            Ok((t1, t2, seq)) => {
-                check_that(t1.same(t2), || format!("{}: two executions return different terms (result depends on scheduling)", tag));
+        match catch(|| (va.dot_f64(&vb), va.dot_f64(&vb), va.dot_f64(&vb), va.dot(&vb))) {
+            Ok((t1, t2, t3, seq)) => {
+                // identical evaluation DAGs across executions <=> the order of the floating-point additions is fixed
+                if !is_concrete() { check_that(t1.same(t2) && t1.same(t3), || SCHED.into()); }
                 prove_eq(&format!("{}: threaded dot = sequential dot (every index exactly once)", tag), t1, seq);
                 prove_eq(&format!("{}: threaded dot = sum a_i b_i", tag), t1, dotv(&a, &b));
             }
